@@ -34,6 +34,36 @@ TEXT = {
    level_text="Request histories (exhaustive over negotiation prefixes x full alphabet to a bounded depth, random to depth 16) are sent by a raw peer to the real BackendReqHandler with scripted handler success/failure; after every request everything the server wrote is drained and compared with the model's prediction (one reply / one ack with 0 iff success / nothing), header fields, in-band failure encodings, exact consumption, and reply pairing at history end.",
    level_note="Trusted: the ~150-line reference model (c04::Model) written from the statement. Left open (observed only): ack on the very message that flips REPLY_ACK, answer to requests rejected before dispatch, unimplemented request codes.",
  ),
+ "C05": dict(
+   engine="hv", design_ref="DESIGN.md 3.C05",
+   technique="hostile-input runtime monitoring: panic hook + overflow/debug-assertion build + process-exit monitor + handler-side independent validity predicate; ASan overlay",
+   level_text="Grammar-aware hostile byte streams with up to 40 descriptors at arbitrary positions are fed to the real BackendReqHandler after random negotiation histories; the monitors are a panic hook (harness built with overflow checks and debug assertions), the driver watching for signals, and the recording handler checking every invocation against the validity rules of the statement. Directed cases cover every invalid-argument class named in the statement.",
+   level_note="Sampled input space (no coverage guidance). The daemon half of the property (well-typed adversarial control messages to a running VhostUserDaemon) is a separate unit in the hd harness.",
+ ),
+ "C06": dict(
+   engine="hv", design_ref="DESIGN.md 3.C06",
+   technique="reply-mutation monitoring by a scripted raw peer (one dimension at a time) + hostile streams to the frontend request server; panic hook; value-provenance check on every Ok",
+   level_text="For every request type of Frontend, Backend proxy and GpuBackend the correct reply is mutated in one dimension (every other request code, REPLY cleared, each flag bit, version, size with framing-consistent body, invalid bodies per validator, 0..=3 descriptors) and the call must fail whenever a conjunct named in the statement is broken, never panic, and any Ok value must consist of bytes the peer sent. The FrontendReqHandler gets hostile streams and well-framed requests with 0..=3 descriptors.",
+   level_note="Left open (observed): NEED_REPLY set on a reply, version/reserved bits, replies whose size field is larger than the body type with consistent trailing bytes.",
+ ),
+ "C09": dict(
+   engine="hv", design_ref="DESIGN.md 3.C09",
+   technique="resource census monitor: /proc/self/fd (number+identity) before/after each scenario, identity re-check of delivered and lent descriptors",
+   level_text="Hostile streams with 0..=40 descriptors (on requests that take none, on body bytes, beyond the 32-descriptor receive limit) are run against both request servers with teardown after every request index and handler success/failure/drop; frontend calls are answered with unwanted descriptors; proxies are lent descriptors. After everything is dropped the open-descriptor set must equal the baseline; delivered files must still be valid when the handler drops them; lent descriptors must be unchanged.",
+   level_note="Trusted: (st_dev, st_ino)+eventfd-id as identity. Daemon-level scenarios (kick/call/err replacement, exit events) are covered by the hd unit of C09.",
+ ),
+ "C10": dict(
+   engine="hv", design_ref="DESIGN.md 3.C10",
+   technique="schedule enumeration with instrumented hold points + scripted withholding peer (ordering/tag oracle) + /proc deadlock certificate; TSan overlay on the stress phase",
+   level_text="Clones of each endpoint are driven from 2-3 threads; the *.sent hold points park a caller between 'request written' and 'reply read' while the controller starts the others; the raw peer withholds and tags replies. Every well-formed order of {start, grant, reply} for 2 callers over all call-kind mixes is run (3 callers sampled) and the oracle checks: no second request while a reply is owed or unconsumed, every caller gets its own tag, all calls complete (else a futex/recvmsg quiescence certificate). A jittered 8-thread stress run and a TSan build of it follow.",
+   level_note="Granularity = hold points; a race entirely inside one step is only visible to TSan / the stress oracle.",
+ ),
+ "C18": dict(
+   engine="hv", design_ref="DESIGN.md 3.C18",
+   technique="end-to-end monitoring through a decoding tap: recording frontend handler, proxy return value, ack bytes decoded by the independent codec; thread-state check for 'awaited / not awaited'",
+   level_text="The real Backend proxy talks to the real FrontendReqHandler through a relay that decodes every message: the handler must be invoked exactly once with equal arguments and the same open file; with REPLY_ACK the ack on the wire must be the handler's value (or the negated errno) and the proxy must succeed iff it was zero and must be parked waiting until the ack arrives; without REPLY_ACK no ack may be written or awaited. All 5 requests x all handler results are enumerated inside long mixed sessions.",
+   level_note="'Awaited' is decided from the proxy thread's state (returned vs parked in recvmsg) before the request is handed on, not from timing.",
+ ),
  "C07": dict(
    engine="hv", design_ref="DESIGN.md 3.C07",
    technique="runtime monitoring with exhaustive configuration enumeration: handler call log and peer byte counter per (feature subset / negotiation order, gated request)",
